@@ -1744,6 +1744,112 @@ def gen_pingq_ops(rng, length):
     return {'part': 'pingq', 'peers': m, 'ops': ops}
 
 
+class _InlineExecutor:
+    """runs submitted work at once in the calling thread: sqlite beneath SQLiteStorage without real threads, so that the
+    virtual clock cannot run ahead of a database call"""
+
+    def __init__(self, *a, **k):
+        pass
+
+    def submit(self, fn, *args, **kwargs):
+        import concurrent.futures
+        f = concurrent.futures.Future()
+        try:
+            f.set_result(fn(*args, **kwargs))
+        except BaseException as e:          # noqa
+            f.set_exception(e)
+        return f
+
+    def shutdown(self, wait=True):
+        pass
+
+
+def run_reannounce_case(run, model, case):
+    """the production announcer (real BlobAnnouncer + SQLiteStorage) of an active publisher over more than 24 h: blobs
+    become due in different rounds; whenever the publisher's own bookkeeping says a blob was announced less than 24 h
+    ago, every other node's value lookup must return the publisher"""
+    import tempfile
+    import shutil
+    import lbry.wallet.database as _dbmod
+    from lbry.conf import Config
+    from lbry.extras.daemon.storage import SQLiteStorage
+    from lbry.dht.blob_announcer import BlobAnnouncer
+    n, seed = case['n'], case['seed']
+    sim = Sim(seed, n, Profile(delay=tuple(case['delay'])))
+    rng = random.Random(seed * 37 + 5)
+    tmp = tempfile.mkdtemp(prefix='c12-ann-')
+    saved = (_dbmod.ThreadPoolExecutor, _dbmod.ReaderExecutorClass)
+    _dbmod.ThreadPoolExecutor = _InlineExecutor
+    _dbmod.ReaderExecutorClass = _InlineExecutor
+    info = {'checks': 0, 'rounds': []}
+
+    async def go():
+        problems = []
+        await sim.start()
+        await asyncio.wait_for(sim.nodes[0].joined.wait(), 3000)
+        await asyncio.sleep(700)
+        pub = 1
+        node = sim.nodes[pub]
+        conf = Config(data_dir=tmp, wallet_dir=tmp, download_dir=tmp, config=os.path.join(tmp, 'settings.yml'))
+        storage = SQLiteStorage(conf, ':memory:', sim.loop, sim.loop.time)
+        await storage.open()
+        announcer = BlobAnnouncer(sim.loop, node, storage)
+        announcer.start(batch_size=10)
+        t0 = sim.loop.time()
+        blobs = []
+
+        async def publish(label):
+            h = bytes(rng.randrange(256) for _ in range(48)).hex()
+            await storage.add_blobs((h, 1024, int(sim.loop.time()), True), finished=True)
+            await storage.set_announce(h, h)      # (sd hash, head blob) of a published stream
+            blobs.append((label, h))
+
+        async def check(label):
+            rows = await storage.db.run(lambda tx: tx.execute(
+                "select blob_hash, last_announced_time, next_announce_time from blob").fetchall())
+            now = sim.loop.time()
+            book = {r[0]: (r[1], r[2]) for r in rows}
+            info['rounds'].append([label, sorted((lbl, int(book[h][0] - t0) if book[h][0] else None) for lbl, h in blobs)])
+            for lbl, h in blobs:
+                last = book[h][0]
+                if not last or now - last >= EXPIRY - 600:
+                    continue        # never announced yet, or (by the publisher's own books) about to expire
+                miss = []
+                for i in range(n):
+                    if i == pub:
+                        continue
+                    found, finder, fin = await sim.value_lookup(i, bytes.fromhex(h))
+                    problems.extend(check_lookup(sim, i, finder, found, fin, 0, 0))
+                    info['checks'] += 1
+                    if node.protocol.node_id not in {p.node_id for p in found}:
+                        miss.append(i)
+                if miss:
+                    problems.append(f'[{label}] the publisher\'s own record says blob {lbl} was announced {(now - last) / 3600:.1f} h ago '
+                                    f'(next announcement in {(book[h][1] - now) / 3600:.1f} h), yet the value lookups of nodes {miss} '
+                                    f'in a loss-free honest network of {n} do not return it')
+            return problems
+
+        await publish('A')
+        await asyncio.sleep(300)
+        await check('T+5min')
+        for label, hours, new in case['schedule']:
+            await quiescent_jump_to(sim, t0 + hours * 3600)
+            if new:
+                await publish(new)
+            await asyncio.sleep(400)             # a few 60 s rounds of the announcer
+            await check(label)
+        announcer.stop()
+        await storage.close()
+        return problems
+    try:
+        problems = sim.run(go())
+        return info, problems, sim.traces
+    finally:
+        _dbmod.ThreadPoolExecutor, _dbmod.ReaderExecutorClass = saved
+        sim.close()
+        shutil.rmtree(tmp, ignore_errors=True)
+
+
 def run_lowport_case(run, model, case):
     """a node whose blob server listens on a privileged tcp port announces next to an honest announcer: every value
     lookup (the storing nodes' own ones included) yields only well-formed addresses and still finds the honest one"""
@@ -2096,8 +2202,9 @@ def do_case(run, model, case, rng=None):
             run.violation(case, problems[0], signature={'part': 'storeport'})
         else:
             run.compare('C12.store_port_ok', case, impl, mod)
-    elif part in ('lowport', 'cancel', 'busy'):
-        runner = {'lowport': run_lowport_case, 'cancel': run_cancel_case, 'busy': run_busy_case}[part]
+    elif part in ('lowport', 'cancel', 'busy', 'reannounce'):
+        runner = {'lowport': run_lowport_case, 'cancel': run_cancel_case, 'busy': run_busy_case,
+                  'reannounce': run_reannounce_case}[part]
         info, problems, traces = runner(run, model, case)
         run.case(case, nontrivial=True)
         run.count(part + ':n=%d' % case['n'])
@@ -2188,7 +2295,8 @@ def main(run):
         'while the probe to a slow announcer is unanswered, then lookups right after and one hour later; a joiner that issues one lookup '
         'per minute for 90 virtual minutes, then a blob whose hash is closest to it; a node announcing a privileged tcp port next to '
         'an honest announcer; replies delivered in bursts (one loop iteration) with an empty-handed closer node answering just before '
-        'the paging node; KademliaRPC.store over the port boundary list; non-trivial = contains at least one query (ds), n>0 (pages), >2 events (traces).'
+        'the paging node; KademliaRPC.store over the port boundary list; the real BlobAnnouncer + SQLiteStorage of an active publisher over 40 virtual '
+        'hours (blobs becoming due in different rounds), lookups whenever the publisher\'s books say announced < 24 h ago; non-trivial = contains at least one query (ds), n>0 (pages), >2 events (traces).'
         % len(FAULT_KINDS))
     supporting = {'hit_runs': 0, 'hit_lookups': 0, 'hit_misses': 0, 'stale_hits': 0, 'late_lookups': 0,
                   'stored_to': {}, 'closest_overlap': {}, 'announce_tries': {}, 'by_size': {},
@@ -2288,6 +2396,10 @@ def main(run):
     for idx in range(vlib.scaled(tier, 1, 6)):
         do_case(run, model, {'part': 'busy', 'n': [11, 14][idx % 2], 'minutes': 90, 'seed': rng.randrange(1 << 30),
                              'delay': [0.001, 0.1]}, rng)
+    for idx in range(vlib.scaled(tier, 1, 4)):
+        do_case(run, model, {'part': 'reannounce', 'n': [6, 9][idx % 2], 'seed': rng.randrange(1 << 30), 'delay': [0.001, 0.1],
+                             'schedule': [['T+6h', 6, 'B'], ['T+15h', 15, 'C'], ['T+24h10m', 24.17, None], ['T+30h', 30, 'D'],
+                                          ['T+40h', 40, None]]}, rng)
     for n_ann in ([8, 20, 33] if tier != 'thorough' else [8, 9, 16, 17, 20, 24, 33, 64, 100]):
         do_case(run, model, {'part': 'paging_sim', 'n': n_ann, 'seed': rng.randrange(1000), 'race': {'period': [0.2, 0.4][n_ann % 2]}}, rng)
     # ---- E2a: lookups for the exact id of a dead / silent / never-heard node by a late joiner (fixed family)
